@@ -554,6 +554,10 @@ def _request_job(a):
            "samples": [], "src_sha": meta["src_sha"], "accesses_per_kernel": est}
     module = Module(meta, fresh_copy(meta, "mut"))  # the instance that accumulates history
     arena = Arena()
+    # budget: the same number of checked memory accesses per request, not the same number of runs
+    per_run = max(1, sum(est.values()) // max(1, len(est))) * 6  # ~2.5 batches x ~2.5 jobs
+    budget = int(os.environ.get("VERIF_ACCESS_BUDGET", 0)) or (2_000_000_000 if thorough else 120_000_000)
+    nruns = max(40, min(nruns, budget // per_run))
     scns = explicit if explicit is not None else [
         gen_run(core.run_seed(base, i) * 1009 + int(hashlib.sha1(name.encode()).hexdigest()[:6], 16), len(first.kernels),
                 thorough) for i in range(nruns)]
@@ -646,9 +650,7 @@ def replay(path):
 def kernel_requests(thorough):
     names = [r.name for r in R.by_tag("kern")]
     if not thorough:
-        names = [n for n in names if n not in ("dg_jump_hex", "hyperelastic_tet", "curlcurl_n1_tet",
-                                               "stiff_p1_hexahedron", "dg_jump_tetrahedron", "prism_ds",
-                                               "sumfact_q2_hex", "stiff_p2_tetrahedron")]
+        names = [n for n in names if n not in ("dg_jump_hex", "hyperelastic_tet") and "slow" not in R.get(n).tags]
     return names
 
 
@@ -659,7 +661,7 @@ def run_check(prop, tier, base, replay_path=None):
     thorough = tier == "thorough"
     verd = core.Verdicts(prop)
     names = kernel_requests(thorough)
-    nruns = int(os.environ.get("VERIF_RUNS", 0)) or (20000 if thorough else 1500)
+    nruns = int(os.environ.get("VERIF_RUNS", 0)) or (20000 if thorough else 2000)
     workroot = core.scratch_dir("kern-")
     opts = ["-O2", "-O1"] if thorough else ["-O2"]
     jobs = [(n, o, base, nruns, thorough, workroot, None) for n in names for o in opts]
@@ -729,7 +731,7 @@ def run_check(prop, tier, base, replay_path=None):
         "evaluations": nruns_total,
         "distinct_nontrivial": len(digs) if stats["nontrivial_batches"] else 0,
         "rule": "one evaluation = one run: a history of 1-4 batches on one loaded module instance, each batch "
-                "1-4 simulated threads (ucontext coroutines running the real clang-compiled generated kernel) "
+                "1-4 simulated threads (coroutines running the real clang-compiled generated kernel) "
                 "interleaved at load/store granularity by a seeded policy (random p, PCT, round-robin, "
                 "sequential).  distinct_nontrivial = distinct (request, opt level, digest of the switch "
                 "sequences of the run); counted only if context switches between concurrent jobs occurred "
@@ -753,10 +755,11 @@ def run_check(prop, tier, base, replay_path=None):
         "probes": probes,
         "determinism_selftest": {"requests": len(det), "mismatches": nondet},
         "build_seconds": round(sum(r["build_s"] for r in results), 1),
+        "per_module_wall_s": {r["name"] + r["opt"]: [r["build_s"], round(r["wall"], 1)] for r in results},
         "components": {
             "real": ["ffcx analysis/IR/code generation/formatting (the text under test)", "clang -O1/-O2 "
                      "compilation of the unchanged text", "the kernel machine code", "libm"],
-            "stub": ["threads (ucontext coroutines on one OS thread, switch only at instrumented loads/stores)",
+            "stub": ["threads (coroutines on one OS thread, switch only at instrumented loads/stores)",
                      "the assembler calling the kernels (this driver)", "cffi build driver (plain clang; "
                      "same text)"],
         },
